@@ -58,6 +58,33 @@ def self_ref(doc, name) -> bool:
     return ('"$ref": "#/components/schemas/%s"' % name) in json.dumps(doc["components"]["schemas"][name])
 
 
+def structural_cases(ctx, n: int) -> list[dict]:
+    """Containers decoded BEFORE their parts, in a process that has not seen the parts: a model reachable only through a typed map
+    (additionalProperties: $ref), through a list, through an Optional, with renamed wire keys."""
+    NS = opsrig.impl_names()
+    cases = []
+    keysets = [["warehouseId", "class", "last-counted"], ["userId", "X-Code", "is_active"], ["displayName", "type", "created-at"]]
+    for i in range(n):
+        r = rng(f"C03:structural:{i}")
+        ks = r.choice(keysets)
+        level = {"type": "object", "required": [ks[0]], "properties": {ks[0]: {"type": "string"}, ks[1]: {"type": "string"}, ks[2]: {"type": "string", "format": r.choice(["date", "date-time"])}}}
+        how = ["map", "list", "optional", "map-of-list"][i % 4]
+        holder_prop = {"map": {"type": "object", "additionalProperties": {"$ref": "#/components/schemas/Level"}},
+                       "list": {"type": "array", "items": {"$ref": "#/components/schemas/Level"}},
+                       "optional": {"$ref": "#/components/schemas/Level"},
+                       "map-of-list": {"type": "object", "additionalProperties": {"type": "array", "items": {"$ref": "#/components/schemas/Level"}}}}[how]
+        doc = {"openapi": "3.0.3", "info": {"title": "S", "version": "1"}, "paths": {"/x": {"get": {"operationId": "getX", "responses": {"200": {"description": "ok",
+               "content": {"application/json": {"schema": {"$ref": "#/components/schemas/Inventory"}}}}}}}},
+               "components": {"schemas": {"Inventory": {"type": "object", "required": ["inventoryId"], "properties": {"inventoryId": {"type": "string"}, "levels": holder_prop}}, "Level": level}}}
+        inst = gs.gen_instance(r, doc, {"$ref": "#/components/schemas/Inventory"})
+        lv = lambda: gs.gen_instance(r, doc, {"$ref": "#/components/schemas/Level"})
+        inst["levels"] = {"map": {"sku-1": lv(), "sku-2": lv()}, "list": [lv(), lv()], "optional": lv(), "map-of-list": {"a": [lv()], "b": []}}[how]
+        # ONLY the holder is decoded in this process
+        cases.append({"id": f"structural-{i}", "stream": "structural", "doc": doc,
+                      "items": [{"id": "Inventory-0", "cls": "Inventory", "schema": "Inventory", "json": inst, "features": ["structural:" + how]}]})
+    return cases
+
+
 def build_cases(ctx, stream: str, n: int) -> list[dict]:
     NS = opsrig.impl_names()
     cases = []
@@ -154,7 +181,7 @@ def check(run: Run, ctx) -> None:
     run.cov["rule"] = (run.cov.get("rule") or "") + ("[e2e] seeded random schema sets -> generated models imported in a fresh interpreter -> 3 type-directed conforming instances per object "
                        "schema (nested objects, lists, maps, nullable, date-time/date/byte[/uuid/time], camelCase/kebab/keyword-like property names) -> structure_from_dict then "
                        "unstructure_to_dict with the package's own core; distinct by (document, instance); non-trivial when the instance is non-empty")
-    cases = build_cases(ctx, "mainstream", ctx.budget(24, 240)) + build_cases(ctx, "wide", ctx.budget(12, 120))
+    cases = structural_cases(ctx, ctx.budget(8, 40)) + build_cases(ctx, "mainstream", ctx.budget(24, 240)) + build_cases(ctx, "wide", ctx.budget(12, 120))
     results = e2e.run_cases("vf.props.C03:case_fn", cases)
     for case, res in zip(cases, results):
         evaluate(run, known, case, res)
